@@ -524,11 +524,17 @@ def classify_data(case):
 @st.composite
 def history_cases(draw):
     n0 = draw(st.one_of(st.none(), st.integers(1, 40)))
-    nops = draw(st.integers(2, 6))
-    pool = draw(st.lists(st.integers(1, 60), min_size=1, max_size=3))
+    nops = draw(st.integers(2, 8))
+    pool = draw(st.lists(st.integers(1, 60), min_size=1, max_size=3, unique=True))
+    # half of the histories alternate between two or three point counts only (A, B, A, B ...): an object that
+    # remembers more than its current rule is exercised by coming *back* to a count it has seen
+    alternating = draw(st.booleans()) and len(pool) >= 2
     ops = []
     for _ in range(nops):
-        npts = draw(st.one_of(st.none(), st.sampled_from(pool), st.integers(1, 60)))
+        if alternating:
+            npts = draw(st.sampled_from(pool))
+        else:
+            npts = draw(st.one_of(st.none(), st.sampled_from(pool), st.integers(1, 60)))
         if draw(st.booleans()):
             a, b = draw(intervals(max_logratio=1.95))
             ops.append({"kind": "func", "npts": npts, "a": a, "b": b, "f": draw(integrand(a, b))})
